@@ -3,10 +3,26 @@ against real tracing + Registry + MetricsLayer + TracingContext over a logging r
 import itertools
 from .core import Prop, cq_N, cq_Z, cq_bool, cq_list, cq_opt, cq_bytes, cq_pair
 
-NAMES = ["a", "b", "c", "d"]
-LNAMES = ["a", "b", "c", "d", "e"]
+ASCII_PALETTE = ["a", "b", "c", "d", "e"]
 MNAMES = ["m", "n"]
 STRS = ["", "x", "y", "aa", "true", "1", "7", "-5", "é"]
+USTRS = ["e\u0301", "größe", "😀", "名", "É"]          # further label/field values (multi-byte)
+# Field / label / allow-list names beyond ASCII.  The code compares names as Rust `str`s, i.e. byte-for-byte on the UTF-8
+# encoding (no normalisation, no case folding); the model compares the same byte sequences.  Groups are confusable sets:
+# names that differ only in normalisation form, case, compatibility mapping, or that share a byte length with a different
+# character count (and vice versa).
+UGROUPS = [
+    ["é", "e\u0301", "É", "e", "E\u0301"],                 # NFC / NFD / case: 2B1c, 3B2c, 2B1c, 1B1c, 3B2c
+    ["größe", "grösse", "GRÖSSE", "große", "gro\u0308ße"],  # 7B5c, 6B6c, 7B6c, 6B5c, 8B6c
+    ["ß", "ss", "ẞ", "s", "ſ"],                             # 2B1c, 2B2c, 3B1c, 1B1c, 2B1c
+    ["😀", "abcd", "éé", "名a", "😀a"],                      # 4B1c, 4B4c, 4B2c, 4B2c, 5B2c
+    ["名", "名前", "abc", "名\u3099", "ａ"],                  # 3B1c, 6B2c, 3B3c, 6B2c (combining dakuten), 3B1c (fullwidth a)
+    ["K", "\u212a", "k", "ﬁ", "fi"],                        # KELVIN SIGN vs K, ligature vs letters
+    ["", "a", "é", "名", "😀"],                              # empty name; 1 char each, 0..4 bytes
+    ["a", "A", "а", "á", "a\u0301"],                        # Latin a / A / Cyrillic а / precomposed / combining
+    ["user.id", "user.íd", "user", "id", "user.id\u200b"],  # dotted names, zero-width space suffix
+]
+UPOOL = sorted({n for g in UGROUPS for n in g})
 I64_MIN, I64_MAX, U64_MAX = -(1 << 63), (1 << 63) - 1, (1 << 64) - 1
 
 
@@ -146,6 +162,7 @@ class C17(Prop):
     assumptions = [
         "span handles are used through tracing's public API (span!, Span::record_all, Dispatch::enter/exit); per-layer filters of tracing-subscriber are not used",
         "Debug/Display renderings of field values (f64, i128, Option, ?str, %str) are passed to the model as data (formatting oracle); i64/u64/bool/str renderings are modelled",
+        "field names, label names, allow-list entries and values are UTF-8 byte strings compared byte-for-byte (Rust str equality: no normalisation, no case folding); the model compares the same byte sequences",
         "threads run one event at a time (the harness serialises them over channels); the property concerns which span is current per thread, not data races",
     ]
     trusted_extra = [
@@ -153,12 +170,23 @@ class C17(Prop):
     ]
 
     # ------------------------------------------------------------------ generator
+    def set_palette(self, rng, force_unicode=False):
+        """5 names per case: self.N (4, usable as span fields) and self.L (all 5, label / allow-list / rule names)"""
+        if not force_unicode and rng.below(100) < 55:
+            self.uni, pal = False, list(ASCII_PALETTE)
+        elif rng.chance(2, 3):
+            self.uni, pal = True, rng.shuffle(rng.pick(UGROUPS))
+        else:
+            self.uni, pal = True, rng.shuffle(UPOOL)[:5]
+        self.L, self.N = pal, pal[:4]
+        self.M = ["m", "µ"] if self.uni else list(MNAMES)
+
     def rand_val(self, rng, allow_empty=True):
         r = rng.below(100)
         if allow_empty and r < 25:
             return ["e", None]
         if r < 50:
-            return ["s", rng.pick(STRS)]
+            return ["s", rng.pick(STRS + USTRS) if self.uni or rng.chance(1, 6) else rng.pick(STRS)]
         if r < 58:
             return ["b", rng.chance(1, 2)]
         if r < 70:
@@ -170,7 +198,7 @@ class C17(Prop):
         if r < 89:
             return ["d", rng.pick(["x", "", "a\"b", "1"])]
         if r < 93:
-            return ["p", rng.pick(["x", "1", "true"])]
+            return ["p", rng.pick(["x", "1", "true", "é", "名"])]
         if r < 97:
             return ["o", rng.pick([None, 1, -5])]
         return ["f", rng.range(-6, 6)]
@@ -181,26 +209,33 @@ class C17(Prop):
             return ["all"]
         if r < 75:
             k = rng.weighted([(1, 0), (3, 1), (3, 2), (2, 3), (1, 5)])
-            return ["allow", rng.shuffle(LNAMES)[:k]]
+            names = rng.shuffle(self.L)[:k]
+            if rng.chance(1, 2 if self.uni else 5):
+                # entries no span of this case carries (in Unicode cases: confusable with ones it does)
+                names += [rng.pick(UPOOL + ["abcdef", "zz"]) for _ in range(rng.range(1, 2))]
+                names = rng.shuffle(names)
+            return ["allow", names]
         rules = []
         for _ in range(rng.range(0, 3)):
-            rules.append([rng.pick([None, None] + MNAMES), rng.pick([None] + LNAMES), rng.pick([None, None, None] + STRS[:6]), rng.chance(1, 2)])
+            rules.append([rng.pick([None, None] + self.M), rng.pick([None] + self.L), rng.pick([None, None, None] + STRS[:6] + (USTRS[:2] if self.uni else [])), rng.chance(1, 2)])
         return ["table", rng.chance(1, 2), rules]
 
     def rand_fields(self, rng, p_empty=25):
         k = rng.weighted([(2, 0), (5, 1), (7, 2), (4, 3), (2, 4)])
-        names = rng.shuffle(NAMES)[:k]
+        names = rng.shuffle(self.N)[:k]
         return [[n, self.rand_val(rng)] for n in names]
 
     def rand_labels(self, rng):
         k = rng.weighted([(3, 0), (4, 1), (4, 2), (2, 3)])
         if rng.chance(1, 8):
-            names = [rng.pick(LNAMES) for _ in range(k)]     # duplicates possible
+            names = [rng.pick(self.L) for _ in range(k)]     # duplicates possible
         else:
-            names = rng.shuffle(LNAMES)[:k]
-        return [[n, rng.pick(STRS[:6] + ["own"])] for n in names]
+            names = rng.shuffle(self.L)[:k]
+        vals = STRS[:6] + ["own"] + (USTRS if self.uni else [])
+        return [[n, rng.pick(vals)] for n in names]
 
     def gen_random(self, rng):
+        self.set_palette(rng)
         nthreads = rng.weighted([(5, 1), (3, 2), (2, 3)])
         filters = [self.rand_filter(rng) for _ in range(rng.range(1, 3))]
         evs = []
@@ -230,7 +265,7 @@ class C17(Prop):
             elif r < 40:
                 i = rng.pick(alive) if alive and not rng.chance(1, 12) else rng.below(nid + 1)
                 k = rng.weighted([(6, 1), (3, 2), (1, 3)])
-                fs = [[rng.pick(NAMES), self.rand_val(rng, allow_empty=rng.chance(1, 6))] for _ in range(k)]
+                fs = [[rng.pick(self.N), self.rand_val(rng, allow_empty=rng.chance(1, 6))] for _ in range(k)]
                 evs.append(["R", t, i, fs])
             elif r < 60:
                 i = rng.pick(alive[-3:]) if alive and not rng.chance(1, 10) else rng.below(nid + 1)
@@ -251,86 +286,108 @@ class C17(Prop):
                 if i in alive:
                     alive.remove(i)
             else:
-                evs.append(["M", t, rng.pick("cgh"), rng.pick(MNAMES), self.rand_labels(rng), rng.below(len(filters))])
+                evs.append(["M", t, rng.pick("cgh"), rng.pick(self.M), self.rand_labels(rng), rng.below(len(filters))])
         for t in range(nthreads):
             if rng.chance(2, 3):
-                evs.append(["M", t, rng.pick("cgh"), rng.pick(MNAMES), self.rand_labels(rng), rng.below(len(filters))])
+                evs.append(["M", t, rng.pick("cgh"), rng.pick(self.M), self.rand_labels(rng), rng.below(len(filters))])
         return dict(filters=filters, events=evs)
 
     def gen_adversarial(self, rng):
-        kind = rng.below(8)
+        kind = rng.below(9)
+        self.set_palette(rng, force_unicode=(kind == 8))
+        na, nb, nc, nd = self.N
+        ne = self.L[4]
         filters = [["all"], self.rand_filter(rng)]
         evs = []
-        M = lambda t, labels=None, f=None: ["M", t, rng.pick("cgh"), rng.pick(MNAMES), self.rand_labels(rng) if labels is None else labels, rng.below(2) if f is None else f]
+        M = lambda t, labels=None, f=None: ["M", t, rng.pick("cgh"), rng.pick(self.M), self.rand_labels(rng) if labels is None else labels, rng.below(2) if f is None else f]
         if kind == 0:
             # deep chain, the same names on every level, emissions at every depth, records on outer spans after children exist
             depth = rng.range(2, 6)
             for i in range(depth):
-                fs = [[n, ["s", "L%d" % i] if rng.chance(2, 3) else ["e", None]] for n in rng.shuffle(NAMES)[:rng.range(1, 3)]]
+                fs = [[n, ["s", "L%d" % i] if rng.chance(2, 3) else ["e", None]] for n in rng.shuffle(self.N)[:rng.range(1, 3)]]
                 evs += [["N", 0, i, "c", fs], ["E", 0, i], M(0)]
             for i in range(depth):
-                evs += [["R", 0, i, [[rng.pick(NAMES), ["s", "late%d" % i]]]], M(0, f=0)]
+                evs += [["R", 0, i, [[rng.pick(self.N), ["s", "late%d" % i]]]], M(0, f=0)]
             for i in reversed(range(depth)):
                 evs += [["X", 0, i], M(0, f=0)]
         elif kind == 1:
             # duplicate enters and out-of-order exits
-            evs += [["N", 0, 0, "r", [["a", ["s", "A"]]]], ["N", 0, 1, "r", [["b", ["s", "B"]], ["a", ["e", None]]]]]
+            evs += [["N", 0, 0, "r", [[na, ["s", "A"]]]], ["N", 0, 1, "r", [[nb, ["s", "B"]], [na, ["e", None]]]]]
             for _ in range(rng.range(3, 10)):
                 evs.append([rng.pick("EEX"), 0, rng.below(2)])
                 evs.append(M(0, f=0))
                 if rng.chance(1, 4):
-                    evs.append(["N", 0, 2 + len(evs), "c", [["c", ["i", len(evs)]]]])
+                    evs.append(["N", 0, 2 + len(evs), "c", [[nc, ["i", len(evs)]]]])
         elif kind == 2:
             # handles dropped while entered; children created under a dropped-but-entered parent
-            evs += [["N", 0, 0, "c", [["a", ["s", "A"]], ["b", ["e", None]]]], ["E", 0, 0], ["D", 0, 0], M(0, f=0),
-                    ["R", 0, 0, [["b", ["s", "never"]]]], ["N", 0, 1, "c", [["c", ["u", 3]]]], ["N", 0, 2, 0, [["d", ["b", True]]]],
+            evs += [["N", 0, 0, "c", [[na, ["s", "A"]], [nb, ["e", None]]]], ["E", 0, 0], ["D", 0, 0], M(0, f=0),
+                    ["R", 0, 0, [[nb, ["s", "never"]]]], ["N", 0, 1, "c", [[nc, ["u", 3]]]], ["N", 0, 2, 0, [[nd, ["b", True]]]],
                     ["E", 0, 1], M(0, f=0), ["X", 0, 0], M(0, f=0), ["E", 0, 2], M(0), ["X", 0, 1], ["X", 0, 2], M(0)]
             for i in range(3, 3 + rng.range(0, 4)):
                 evs += [["N", 0, i, "c", self.rand_fields(rng)], ["E", 0, i], M(0), ["D", 0, i], ["X", 0, i]]
         elif kind == 3:
             # everything filtered out / own labels covering all span fields / duplicate own names
-            filters = [["allow", []], ["table", False, []], ["allow", ["e"]]]
-            fs = [[n, ["s", "S" + n]] for n in rng.shuffle(NAMES)[:rng.range(1, 4)]]
+            filters = [["allow", []], ["table", False, []], ["allow", [ne]]]
+            fs = [[n, ["s", "S" + n]] for n in rng.shuffle(self.N)[:rng.range(1, 4)]]
             evs += [["N", 0, 0, "c", fs], ["E", 0, 0]]
             for f in range(3):
                 evs.append(M(0, f=f))
                 evs.append(M(0, labels=[[n, "own"] for n, _ in fs], f=f))
-                evs.append(M(0, labels=[["a", "o1"], ["e", "o2"], ["a", "o3"]], f=f))
+                evs.append(M(0, labels=[[na, "o1"], [ne, "o2"], [na, "o3"]], f=f))
                 evs.append(M(0, labels=[], f=f))
         elif kind == 4:
             # threads with different current spans, spans created on one thread and entered on another
-            evs += [["N", 0, 0, "c", [["a", ["s", "T0"]]]], ["E", 0, 0], ["N", 1, 1, "c", [["a", ["s", "T1"]], ["b", ["i", 1]]]], ["E", 1, 1],
-                    ["N", 0, 2, "c", [["c", ["s", "child0"]]]], ["N", 1, 3, "c", [["c", ["s", "child1"]]]], ["E", 1, 2], ["E", 0, 3],
+            evs += [["N", 0, 0, "c", [[na, ["s", "T0"]]]], ["E", 0, 0], ["N", 1, 1, "c", [[na, ["s", "T1"]], [nb, ["i", 1]]]], ["E", 1, 1],
+                    ["N", 0, 2, "c", [[nc, ["s", "child0"]]]], ["N", 1, 3, "c", [[nc, ["s", "child1"]]]], ["E", 1, 2], ["E", 0, 3],
                     ["E", 2, 0]]
             for _ in range(rng.range(3, 8)):
                 evs.append(M(rng.below(3), f=0))
                 if rng.chance(1, 2):
                     evs.append([rng.pick("EX"), rng.below(3), rng.below(4)])
                 if rng.chance(1, 3):
-                    evs.append(["R", rng.below(3), rng.below(4), [[rng.pick(NAMES), self.rand_val(rng, False)]]])
+                    evs.append(["R", rng.below(3), rng.below(4), [[rng.pick(self.N), self.rand_val(rng, False)]]])
         elif kind == 5:
             # all fields declared Empty, recorded later in various orders; records with repeated / undeclared names
-            names = rng.shuffle(NAMES)[:rng.range(2, 4)]
+            names = rng.shuffle(self.N)[:rng.range(2, 4)]
             evs += [["N", 0, 0, "c", [[n, ["e", None]] for n in names]], ["E", 0, 0], M(0, f=0)]
             for _ in range(rng.range(2, 6)):
                 k = rng.range(1, 3)
-                evs.append(["R", 0, 0, [[rng.pick(NAMES), self.rand_val(rng, rng.chance(1, 5))] for _ in range(k)]])
+                evs.append(["R", 0, 0, [[rng.pick(self.N), self.rand_val(rng, rng.chance(1, 5))] for _ in range(k)]])
                 evs.append(M(0, f=0))
-            evs += [["N", 0, 1, "c", [[n, ["e", None]] for n in rng.shuffle(NAMES)[:2]]], ["E", 0, 1], M(0, f=0),
-                    ["R", 0, 0, [[names[0], ["s", "after-child"]]]], M(0, f=0), ["R", 0, 1, [[rng.pick(NAMES), ["s", "inner"]]]], M(0, f=0)]
+            evs += [["N", 0, 1, "c", [[n, ["e", None]] for n in rng.shuffle(self.N)[:2]]], ["E", 0, 1], M(0, f=0),
+                    ["R", 0, 0, [[names[0], ["s", "after-child"]]]], M(0, f=0), ["R", 0, 1, [[rng.pick(self.N), ["s", "inner"]]]], M(0, f=0)]
         elif kind == 6:
             # explicit parents: other thread's span, a dropped handle, a not-yet-created id, itself
-            evs += [["N", 0, 0, "r", [["a", ["s", "root"]], ["b", ["s", "rb"]]]], ["N", 1, 1, 0, [["b", ["s", "kid"]]]],
-                    ["E", 0, 1], M(0, f=0), ["D", 0, 0], ["N", 0, 2, 0, [["c", ["s", "orphan"]]]], ["N", 0, 3, 7, [["d", ["s", "nopar"]]]],
-                    ["N", 0, 4, 4, [["d", ["s", "self"]]]], ["E", 1, 2], M(1, f=0), ["E", 1, 3], M(1, f=0), ["E", 1, 4], M(1), ["N", 1, 5, 1, []],
+            evs += [["N", 0, 0, "r", [[na, ["s", "root"]], [nb, ["s", "rb"]]]], ["N", 1, 1, 0, [[nb, ["s", "kid"]]]],
+                    ["E", 0, 1], M(0, f=0), ["D", 0, 0], ["N", 0, 2, 0, [[nc, ["s", "orphan"]]]], ["N", 0, 3, 7, [[nd, ["s", "nopar"]]]],
+                    ["N", 0, 4, 4, [[nd, ["s", "self"]]]], ["E", 1, 2], M(1, f=0), ["E", 1, 3], M(1, f=0), ["E", 1, 4], M(1), ["N", 1, 5, 1, []],
                     ["E", 0, 5], M(0)]
+        elif kind == 8:
+            # allow-list exactness over confusable names: nested spans carrying names of the palette, allow-lists made of
+            # members, confusable non-members and names of other lengths; emissions under every filter at every depth
+            pool_extra = [n for n in UPOOL if n not in self.L]
+            filters = []
+            for _ in range(3):
+                names = rng.shuffle(self.L)[:rng.range(1, 3)] + [rng.pick(pool_extra) for _ in range(rng.range(0, 2))]
+                filters.append(["allow", rng.shuffle(names)])
+            depth = rng.range(1, 3)
+            for i in range(depth):
+                fs = [[n, ["s", "v%d" % i] if rng.chance(3, 4) else ["e", None]] for n in rng.shuffle(self.N)[:rng.range(1, 4)]]
+                evs += [["N", 0, i, "c", fs], ["E", 0, i]]
+                for f in range(3):
+                    evs.append(M(0, labels=[], f=f))
+                if rng.chance(1, 2):
+                    evs.append(M(0, f=rng.below(3)))
+            evs += [["R", 0, depth - 1, [[rng.pick(self.N), ["s", "late"]]]]]
+            for f in range(3):
+                evs.append(M(0, labels=[[rng.pick(self.L), "own"]], f=f))
         else:
             # value types: the same value through every route
             vals = [["s", "7"], ["i", 7], ["u", 7], ["I", 7], ["p", "7"], ["d", "7"], ["o", 7], ["f", 14], ["b", True], ["s", "true"],
                     ["i", I64_MIN], ["i", I64_MAX], ["u", U64_MAX], ["i", 0], ["u", 0], ["i", -1]]
             i = 0
             for v in rng.shuffle(vals)[:rng.range(3, 8)]:
-                evs += [["N", 0, i, "r", [[rng.pick(NAMES), v]]], ["E", 0, i], M(0, f=0), ["X", 0, i]]
+                evs += [["N", 0, i, "r", [[rng.pick(self.N), v]]], ["E", 0, i], M(0, f=0), ["X", 0, i]]
                 i += 1
         return dict(filters=filters, events=evs)
 
@@ -347,9 +404,9 @@ class C17(Prop):
             k = e[0]
             if k == "N":
                 par = e[3] if e[3] in ("c", "r") else "p%d" % e[3]
-                toks.append("N%d:%d:%s:%s" % (e[1], e[2], par, ",".join("%s=%s" % (n, val_tok(v)) for n, v in e[4])))
+                toks.append("N%d:%d:%s:%s" % (e[1], e[2], par, ",".join("%s=%s" % (xh(n), val_tok(v)) for n, v in e[4])))
             elif k == "R":
-                toks.append("R%d:%d:%s" % (e[1], e[2], ",".join("%s=%s" % (n, val_tok(v)) for n, v in e[3])))
+                toks.append("R%d:%d:%s" % (e[1], e[2], ",".join("%s=%s" % (xh(n), val_tok(v)) for n, v in e[3])))
             elif k in ("E", "X", "D"):
                 toks.append("%s%d:%d" % (k, e[1], e[2]))
             else:
